@@ -81,7 +81,9 @@ static std::pair<std::string, std::string> check_one(int pers, const std::string
     if (!refc) { lr = run_chunks(pers, {rq}, {rs}); local = canon(lr); refc = &local; refr = &lr; }
     vdrv::Result r = run_chunks(pers, vdrv::cut_at(rq, qc), vdrv::cut_at(rs, sc));
     auto d = compare(*refc, r);
-    if (!d.first.empty()) d.first += site(*refr, r);
+    if (!d.first.empty()) { // response-side trace points (T1 T3 T6 T7) never qualify a difference in the request fields, T5 never one in the response fields
+        std::string st = site(*refr, r), o; for (size_t p = 0; p < st.size();) { size_t e = st.find('+', p + 1); std::string t = st.substr(p, e == std::string::npos ? std::string::npos : e - p); bool keep = true; if (d.first == "request_fields" && t != "+T5") keep = false; if (d.first == "response_fields" && t == "+T5") keep = false; if (keep) o += t; if (e == std::string::npos) break; p = e; }
+        d.first += o; }
     return d;
 }
 
